@@ -33,4 +33,12 @@ ProtoFails(o) ==
            /\ \A j \in 1..Len(q.walk) : q.walk[j][1] = j * q.stride - 1 /\ <<q.walk[j][2], q.walk[j][3]>> = RunsNth(o.pr, q.walk[j][1])
         THEN {} ELSE {"nth_differs_from_next"})
   \cup (IF q.after = <<1, 1>> THEN {} ELSE {"yields_again_after_the_end"})
+  \* mixed consumption <<k, count, last, fold count, fold first, fold last, skip(k).count()>>: after k items pulled with
+  \* next() the other methods see exactly the rest of the same sequence
+  \cup (IF \A j \in 1..Len(q.mixed) :
+            LET mx == q.mixed[j]  k == mx[1]  rest == IF k < n THEN n - k ELSE 0
+                lastP == IF rest = 0 THEN <<>> ELSE RunsNth(o.pr, n - 1)
+                firstP == IF rest = 0 THEN <<>> ELSE RunsNth(o.pr, k)
+            IN mx[2] = rest /\ mx[3] = lastP /\ mx[4] = rest /\ mx[5] = firstP /\ mx[6] = lastP /\ mx[7] = rest
+        THEN {} ELSE {"rest_after_next_differs"})
 =============================================================================
